@@ -72,12 +72,18 @@ pub const CONTEXTS: &[(&str, &str, &str)] = &[
     ("pipe-middle-of-3", "vtrue | { ", "\n} | vcat >/dev/null"),
     ("pipe-third-of-4", "vtrue | vcat | { ", "\n} | vcat >/dev/null"),
     ("cmdsub-in-pipe-final", "vtrue | rr__=$( ", "\n)"),
+    // `&` ending the LAST command of a nested list (group, function body, loop body, if branch)
+    ("amp-last-in-group", "{ { ", "\n} & }; wait"),
+    ("amp-last-in-function", "afn() { { ", "\n} & }; afn; wait"),
+    ("amp-last-in-loop", "for q__ in 1; do { ", "\n} & done; wait"),
+    ("amp-last-in-if", "if true; then { ", "\n} & fi; wait"),
+    ("amp-last-in-case", "case a in a) { ", "\n} & ;; esac; wait"),
 ];
 
 /// Options of the PARENT under which the same contexts must still isolate (set before the state dump).
 pub const PARENT_MODES: &[(&str, &str)] = &[("default", ""), ("lastpipe", "shopt -s lastpipe\n"), ("pipefail", "set -o pipefail\n"), ("posix", "set -o posix\n"), ("lastpipe+pipefail", "shopt -s lastpipe; set -o pipefail\n")];
 
-const VOLATILE_VARS: &[&str] = &["_", "BASH_COMMAND", "PIPESTATUS", "RANDOM", "SRANDOM", "SECONDS", "LINENO", "rr__", "COPROC", "COPROC_PID", "EPOCHSECONDS", "EPOCHREALTIME", "BASH_SUBSHELL", "FUNCNAME", "BASH_LINENO", "BASH_SOURCE", "BASH_ARGV", "BASH_ARGC"];
+const VOLATILE_VARS: &[&str] = &["_", "BASH_COMMAND", "PIPESTATUS", "RANDOM", "SRANDOM", "SECONDS", "LINENO", "rr__", "q__", "COPROC", "COPROC_PID", "EPOCHSECONDS", "EPOCHREALTIME", "BASH_SUBSHELL", "FUNCNAME", "BASH_LINENO", "BASH_SOURCE", "BASH_ARGV", "BASH_ARGC"];
 
 fn scrub(v: &mut Value) {
     if let Value::Object(m) = v {
@@ -107,6 +113,7 @@ fn scrub(v: &mut Value) {
     // the context line itself defines `fsb` in the parent (function with a subshell body)
     if let Some(f) = v.get_mut("funcs").and_then(|f| f.get_mut("functions")).and_then(|f| f.as_object_mut()) {
         f.remove("fsb");
+        f.remove("afn");
     }
     if let Some(env) = v.get_mut("env") {
         strip(env);
